@@ -105,6 +105,8 @@ pub mod u3v {
             pub transfers: VecDeque<Transfer>,
             pub submit_err_at: Option<(usize, u8)>,
             pub submits: usize,
+            /// further submit failures: index of the submit call (counted over the whole run) -> libusb code
+            pub submit_errs: std::collections::HashMap<usize, u8>,
             pub mem_writes: Vec<(u64, Vec<u8>)>,
             pub mem_reads: Vec<(u64, usize)>,
         }
@@ -125,6 +127,7 @@ pub mod u3v {
                     transfers: VecDeque::new(),
                     submit_err_at: None,
                     submits: 0,
+                    submit_errs: std::collections::HashMap::new(),
                     mem_writes: vec![],
                     mem_reads: vec![],
                 }
@@ -400,6 +403,7 @@ pub mod u3v {
         pub fn open(&mut self) -> Result<()> {
             if !self.is_opened() {
                 self.world.lock().unwrap().log.push(Ev::StrmOpen);
+                vtrace::trace::mark(vtrace::trace::STRM_OPEN, 0, 0);
                 self.is_opened = true;
             }
             Ok(())
@@ -407,6 +411,7 @@ pub mod u3v {
         pub fn close(&mut self) -> Result<()> {
             if self.is_opened() {
                 self.world.lock().unwrap().log.push(Ev::StrmClose);
+                vtrace::trace::mark(vtrace::trace::STRM_CLOSE, 0, 0);
             }
             self.is_opened = false;
             Ok(())
@@ -429,6 +434,7 @@ pub mod u3v {
     pub mod async_read {
         use super::sim::{self, Ev, Transfer};
         use super::{ReceiveChannel, Result};
+        use vtrace::trace as tr;
         use std::collections::VecDeque;
         use std::time::Duration;
 
@@ -442,50 +448,68 @@ pub mod u3v {
 
         impl<'a> AsyncPool<'a> {
             pub fn new(channel: &'a ReceiveChannel) -> Self {
+                tr::yield_point();
+                let mut t = tr::lock();
                 channel.world.lock().unwrap().log.push(Ev::PoolNew);
+                tr::push(&mut t, tr::POOL_NEW, 0, 0);
                 Self { ch: channel, pending: VecDeque::new() }
             }
 
             pub fn submit(&mut self, buf: &mut [u8]) -> Result<()> {
+                tr::yield_point();
+                let mut t = tr::lock();
                 let mut w = self.ch.world.lock().unwrap();
                 let k = w.submits;
                 w.submits += 1;
                 if let Some((at, e)) = w.submit_err_at {
                     if at == k {
+                        tr::push(&mut t, tr::SUBMIT_ERR, e as i64, 0);
                         return Err(sim::usb_err(e));
                     }
                 }
+                if let Some(e) = w.submit_errs.remove(&k) {
+                    tr::push(&mut t, tr::SUBMIT_ERR, e as i64, 0);
+                    return Err(sim::usb_err(e));
+                }
                 w.log.push(Ev::Submit(buf.len()));
+                tr::push(&mut t, tr::SUBMIT, buf.len() as i64, 0);
                 self.pending.push_back((buf.as_mut_ptr(), buf.len()));
                 Ok(())
             }
 
             pub fn poll(&mut self, timeout: Duration) -> Result<usize> {
                 debug_assert!(!self.pending.is_empty());
+                tr::yield_point();
                 let t = self.ch.world.lock().unwrap().transfers.pop_front();
+                if t.is_none() {
+                    // the device sends nothing: the poll waits for its timeout (shortened)
+                    std::thread::sleep(std::cmp::min(timeout, Duration::from_millis(1)));
+                }
+                let mut g = tr::lock();
                 match t {
                     None | Some(Transfer::Timeout) => {
-                        if t.is_none() {
-                            std::thread::sleep(std::cmp::min(timeout, Duration::from_millis(1)));
-                        }
                         self.ch.world.lock().unwrap().log.push(Ev::Poll(-6));
+                        tr::push(&mut g, tr::POLL, -7, self.pending.len() as i64);
                         Err(sim::usb_err(6))
                     }
                     Some(Transfer::Err(e)) => {
                         self.pending.pop_front();
                         self.ch.world.lock().unwrap().log.push(Ev::Poll(-(e as i64) - 100));
+                        tr::push(&mut g, tr::POLL, -1 - e as i64, self.pending.len() as i64);
                         Err(sim::usb_err(e))
                     }
                     Some(Transfer::Data(d)) => {
                         let (p, n) = self.pending.pop_front().unwrap();
                         if d.len() > n {
                             self.ch.world.lock().unwrap().log.push(Ev::Poll(-107));
+                            tr::push(&mut g, tr::POLL, -8, self.pending.len() as i64);
                             return Err(sim::usb_err(7));
                         }
                         // Safety: the buffer outlives the pool in the code under test, exactly as
                         // the real implementation requires.
                         unsafe { std::ptr::copy_nonoverlapping(d.as_ptr(), p, d.len()) };
                         self.ch.world.lock().unwrap().log.push(Ev::Poll(d.len() as i64));
+                        tr::push(&mut g, tr::POLL, d.len() as i64, self.pending.len() as i64);
                         Ok(d.len())
                     }
                 }
@@ -504,9 +528,12 @@ pub mod u3v {
 
         impl Drop for AsyncPool<'_> {
             fn drop(&mut self) {
+                tr::yield_point();
+                let mut t = tr::lock();
                 let n = self.pending.len();
                 self.pending.clear();
                 self.ch.world.lock().unwrap().log.push(Ev::PoolDrop(n));
+                tr::push(&mut t, tr::POOL_DROP, n as i64, 0);
             }
         }
     }
